@@ -507,4 +507,110 @@ theorem balance_spec (scopes : List Nat) (txs : List Tx) (st : State) (h : st.cr
   rw [h, specCredits, balance_fold]
   simp
 
+/-! ## PART 13 — executable checkers for the hypotheses (non-vacuity, driver self-check) -/
+
+/-- `P pre x post` for every split `l = pre ++ x :: post` (with `pre0` in front). -/
+def allSplits {α : Type} (P : List α → α → List α → Bool) : List α → List α → Bool
+  | _, [] => true
+  | pre, x :: post => P pre x post && allSplits P (pre ++ [x]) post
+
+theorem allSplits_sound {α : Type} (P : List α → α → List α → Bool) : ∀ (l pre : List α),
+    allSplits P pre l = true → ∀ a x b, l = a ++ x :: b → P (pre ++ a) x b = true := by
+  intro l
+  induction l with
+  | nil => intro pre _ a x b h; cases a <;> cases h
+  | cons y post ih =>
+    intro pre h a x b hab
+    simp only [allSplits, Bool.and_eq_true] at h
+    cases a with
+    | nil =>
+      simp only [List.nil_append, List.cons.injEq] at hab
+      obtain ⟨rfl, rfl⟩ := hab
+      simpa using h.1
+    | cons z a' =>
+      simp only [List.cons_append, List.cons.injEq] at hab
+      obtain ⟨rfl, hab⟩ := hab
+      have := ih (pre ++ [y]) h.2 a' x b hab
+      simpa using this
+
+def checkWF (scopes : List Nat) (invalid : BranchId → List Nat) (c : Chain) : Bool :=
+  allSplits (fun pre tx post =>
+      pre.all (fun t => t.id != tx.id) &&
+      tx.ins.all (fun op => (tx :: post).all (fun t => !((wouts scopes t.id t.outs 0).map (·.1)).contains op)) &&
+      tx.ins.all (fun op => !(wops scopes (allTxs c)).contains op || pre.all (fun t => !t.ins.contains op)))
+    [] (allTxs c) &&
+  (paidKeys (allTxs c)).all (fun k => !scopes.contains k.scope || !(invalid (k.scope, k.internal)).contains k.index)
+
+def checkLA (W : Nat) (scopes : List Nat) (c : Chain) : Bool :=
+  allSplits (fun pre hb _ => (paidKeys hb.2).all (fun k =>
+      !scopes.contains k.scope || decide (k.index < nextAfter (allTxs pre) (k.scope, k.internal) + W))) [] c
+
+theorem not_mem_of_contains_false {α : Type} [BEq α] [LawfulBEq α] {l : List α} {a : α}
+    (h : l.contains a = false) : a ∉ l := by
+  intro hm
+  rw [List.contains_iff_mem.mpr hm] at h
+  cases h
+
+theorem checkWF_sound (scopes : List Nat) (invalid : BranchId → List Nat) (c : Chain)
+    (h : checkWF scopes invalid c = true) : ChainWF scopes invalid c := by
+  simp only [checkWF, Bool.and_eq_true] at h
+  obtain ⟨h1, h2⟩ := h
+  have hs := allSplits_sound _ (allTxs c) [] h1
+  refine ⟨?_, ?_, ?_, ?_⟩
+  · intro pre tx post e t ht
+    have := hs pre tx post e
+    simp only [List.nil_append, Bool.and_eq_true, List.all_eq_true, bne_iff_ne] at this
+    exact this.1.1 t ht
+  · intro pre tx post e op hop t ht
+    have := hs pre tx post e
+    simp only [List.nil_append, Bool.and_eq_true, List.all_eq_true, Bool.not_eq_true'] at this
+    exact not_mem_of_contains_false (this.1.2 op hop t ht)
+  · intro pre tx post e op hop hops t ht
+    have := hs pre tx post e
+    simp only [List.nil_append, Bool.and_eq_true, List.all_eq_true, Bool.or_eq_true, Bool.not_eq_true'] at this
+    rcases this.2 op hop with h' | h'
+    · exact absurd hops (not_mem_of_contains_false h')
+    · exact not_mem_of_contains_false (h' t ht)
+  · intro k hk hs'
+    simp only [List.all_eq_true, Bool.or_eq_true, Bool.not_eq_true'] at h2
+    rcases h2 k hk with h' | h'
+    · rw [hs'] at h'; cases h'
+    · exact h'
+
+theorem checkLA_sound (W : Nat) (scopes : List Nat) (c : Chain) (h : checkLA W scopes c = true) :
+    LookAhead W scopes c := by
+  intro pre hh blk post e k hk hs
+  have := allSplits_sound _ c [] h pre (hh, blk) post e
+  simp only [List.nil_append, List.all_eq_true, Bool.or_eq_true, Bool.not_eq_true', decide_eq_true_eq] at this
+  rcases this k hk with h' | h'
+  · rw [hs] at h'; cases h'
+  · exact h'
+
+/-! ## PART 14 — a later recovery over an extended chain (wallet restarted with more blocks, any window) -/
+
+/-- What a finished recovery over `p` left in the database is a valid starting point for the chain `p ++ rest`. -/
+theorem pinv_extend {scopes : List Nat} {invalid : BranchId → List Nat} {p rest : Chain} {st : State}
+    (hwf : ChainWF scopes invalid (p ++ rest)) (hp : PInv scopes p p st) : PInv scopes (p ++ rest) p st := by
+  refine ⟨hp.scopes_eq, hp.paid, hp.credits, ?_, hp.txs_ids⟩
+  intro h blk hmem tx htx ht
+  apply hp.txs_rec h blk hmem tx htx
+  simp only [touches, Bool.or_eq_true, List.any_eq_true, List.contains_iff_mem] at ht ⊢
+  rcases ht with ht | ⟨op, hop, hops⟩
+  · exact Or.inl ht
+  · right
+    refine ⟨op, hop, ?_⟩
+    have htp : tx ∈ allTxs p := by
+      simp only [allTxs, List.mem_flatMap]; exact ⟨(h, blk), hmem, htx⟩
+    obtain ⟨a, b, hab⟩ := List.append_of_mem htp
+    have e : allTxs (p ++ rest) = a ++ tx :: (b ++ allTxs rest) := by rw [allTxs_append, hab]; simp
+    obtain ⟨t, ht', hcr⟩ := (mem_wops_iff scopes _ op).mp hops
+    rw [e] at ht'
+    rcases List.mem_append.mp ht' with ht' | ht'
+    · exact (mem_wops_iff scopes _ op).mpr ⟨t, by rw [hab]; exact List.mem_append_left _ ht', hcr⟩
+    · exact absurd hcr (hwf.order a tx _ e op hop t ht')
+
+theorem pinv_window {scopes : List Nat} {c p : Chain} {st : State} (W : Nat) (hp : PInv scopes c p st) :
+    PInv scopes c p { st with window := W } :=
+  ⟨hp.scopes_eq, hp.paid, hp.credits, hp.txs_rec, hp.txs_ids⟩
+
 end Recovery
